@@ -110,7 +110,8 @@ def variants(topo, tier):
 def jobs(tier):
     q = tier == 'quick'
     cur = {t['name']: t for t in T.curated()}
-    names = ['tb2', 'tbshift', 'tbloop', 'hyb2', 'hyb2pm', 'tb_ev', 'tb_hy', 'ev2', 'evloop', 'weaktb', 'grp_sib', 'grp_out']
+    names = ['tb2', 'tbshift', 'tbloop', 'hyb2', 'hyb2pm', 'tb_ev', 'tb_hy', 'ev2', 'evloop', 'weaktb', 'grp_sib', 'grp_out',
+             'multi_tb', 'multi_shift', 'multi_shift_rev']
     three = ['chain3ev', 'fanin', 'tbchain3'] if q else ['chain3ev', 'chain3', 'fanin', 'fanout', 'tbchain3', 'loop3shift', 'weak3', 'nested', 'reenter']
     out = []
     for name in names + three:
